@@ -4,7 +4,7 @@ NAll == {"prime", "region", "zoneA", "zoneB"}
 ZB3 == {"z00", "z01", "other"}
 L2 == {"quai", "qi"}
 PAll == {"bytes", "bytes20", "hex", "json", "text", "rlp", "proto", "big", "scan", "mixedcase", "txto", "txal", "etxsender"}
-DAll == {"pubkey", "create", "create2"}
+DAll == {"pubkey", "txsender", "create", "create2"}
 MAll == {"AddBalance", "SubBalance", "SetBalance", "SetNonce", "SetCode", "SetState", "SetStorage", "CreateAccount"}
 QL == {20, 19, 21, 0}
 =============================================================================
